@@ -217,8 +217,12 @@ impl Parser {
                 self.lead_comments.clear();
                 let (line1, _) = self.scan.line_info(pos);
                 if line0 == line1 {
+                    let comment = Rc::new(ast::Comment { pos, text });
+                    if self.comments.last().map_or(true, |last| last.pos < pos) {
+                        self.comments.push(comment.clone());
+                    }
                     self.next()?;
-                    Some(Rc::new(ast::Comment { pos, text }))
+                    Some(comment)
                 } else {
                     self.goback(start);
                     self.next()?;
